@@ -311,6 +311,23 @@ theorem C10_parse_D (G : Tables) (script : Nat → Action) (bytes : List Nat) (h
   rw [C10_fresh G script bytes h d1 h0 h1 hh]
   exact parseLoop_eq_D G script _ [] 2 0 d1 _ rfl
 
+/-- **C10 (switch).** Each case of an `OpSwitch` — a literal followed by a target id — has its literal sized by the
+tracked type of the *selector* (the instruction's first operand, an id reference), whatever the instruction's other
+fields are: the literal's outcome is `parse_literal` at the selector, then one word for the target. -/
+theorem C10_switch_uses_selector (G : Tables) (τ : Tracker) (idx sel : Nat) (a : Acc) (rest : List Operand) (d : DState)
+    (hk : G.kPairLitId ≠ G.kIdResultType ∧ G.kPairLitId ≠ G.kIdResult ∧ G.kPairLitId ≠ G.kCtxNumber)
+    (hops : a.ops = .w G.vIdRef sel :: rest) :
+    (∀ lit d1 tgt d2, parseLiteral G τ idx sel d = (.ok lit, d1) → DState.word d1 = (.ok tgt, d2) →
+      parseOne G τ idx G.opSwitch G.kPairLitId a d = (.ok { a with ops := a.ops ++ [lit, .w G.vIdRef tgt] }, d2)) ∧
+    (∀ x d1, parseLiteral G τ idx sel d = (.err x, d1) →
+      parseOne G τ idx G.opSwitch G.kPairLitId a d = (.err x, d1)) := by
+  have h1 : (G.kPairLitId == G.kIdResultType) = false := by simpa using hk.1
+  have h2 : (G.kPairLitId == G.kIdResult) = false := by simpa using hk.2.1
+  have h3 : (G.kPairLitId == G.kCtxNumber) = false := by simpa using hk.2.2
+  constructor
+  · intro lit d1 tgt d2 hl hw; simp [parseOne, h1, h2, h3, hops, hl, hw]
+  · intro x d1 hl; simp [parseOne, h1, h2, h3, hops, hl]
+
 /-- non-vacuity: a prefix with an inert instruction in the middle; the 64-bit declaration survives it -/
 example :
     let G : TTables := ⟨fun o => o == 21 || o == 22 || o == 19, 21, 22, 7⟩
